@@ -156,7 +156,7 @@ fn main() {
             ];
             let tag = format!("deep-chain k={k} #{n}");
             extra_probes.insert(tag.clone(), vec![tower(0, *k), tower(1, *k), tower(0, *k / 2), tower(1, *k / 2), tower(0, 1), tower(1, 1)]);
-            programs.push((Program { decls, cmds }, tag));
+            programs.push((Program { decls, cmds, expect: vec![] }, tag));
         }
     }
     if let Some(path) = &o.replay {
@@ -183,7 +183,8 @@ fn main() {
     //      and values, so only the container dirty-id closure re-stamps it for semi-naive
     //      evaluation. Raw text programs, semi-naive and naive engines in lockstep.
     let mut raw_cases = 0usize;
-    if prop == "C03" && o.replay.is_none() {
+    if (prop == "C03" || prop == "C06") && o.replay.is_none() {
+        let threads_mode = prop == "C06";
         let kinds = [("Vec", "vec-of"), ("Set", "set-of")];
         let mut progs: Vec<(String, Vec<String>, Vec<String>)> = Vec::new();
         for depth in 2..=4usize {
@@ -196,7 +197,7 @@ fn main() {
                     setup.push_str(&format!("(sort {nm} ({k} {}))\n", sort_names[lvl]));
                     sort_names.push(nm);
                 }
-                setup.push_str(&format!("(constructor b () E)\n(constructor c () E)\n(constructor w (E) E)\n(constructor p ({}) E)\n(relation Hit (E))\n", sort_names[depth]));
+                setup.push_str(&format!("(constructor b () E)\n(constructor c () E)\n(constructor w (E) E)\n(constructor k (i64) E)\n(constructor p ({0}) E)\n(constructor q ({0}) E)\n(relation Hit (E))\n", sort_names[depth]));
                 let nest = |leaf: &str| {
                     let mut t = leaf.to_string();
                     for lvl in 0..depth {
@@ -217,14 +218,28 @@ fn main() {
                     "(run-schedule (saturate (run)))".to_string(),
                 ];
                 let probes = vec!["(= $n (b))".to_string(), "(Hit $n)".to_string(), format!("(= (p {}) (b))", nest("(b)"))];
-                progs.push((setup, steps, probes));
+                progs.push((setup.clone(), steps.clone(), probes.clone()));
+                // variant: a YOUNGER container id already denotes the content the older one is
+                // rebuilt into (the rebuilt container collides with it and keeps its own, older id:
+                // only the dirty-id report re-stamps the parent row), plus padding containers so
+                // that the parallel container rebuild is chosen with the default cut-off too
+                let mut steps2 = steps.clone();
+                let mut pad = format!("(let $y (q {}))", nest("(b)"));
+                for i in 0..10 {
+                    pad.push_str(&format!("\n(q {})", nest(&format!("(k {i})"))));
+                }
+                steps2.insert(2, pad);
+                progs.push((setup, steps2, probes));
             }
         }
         for (setup, steps, probes) in &progs {
             raw_cases += 1;
             let mut a = egglog::EGraph::default();
-            let mut b = egglog::EGraph::default();
-            b.seminaive = false;
+            let mut b = if threads_mode { egglog::EGraph::default().with_num_threads(alt_threads) } else { egglog::EGraph::default() };
+            if !threads_mode {
+                b.seminaive = false;
+            }
+            let (side_a, side_b) = if threads_mode { ("1 thread".to_string(), format!("{alt_threads} threads")) } else { ("semi-naive".to_string(), "naive".to_string()) };
             let (ra, _) = step(&mut a, setup);
             let (rb, _) = step(&mut b, setup);
             if ra.is_err() || rb.is_err() {
@@ -239,7 +254,7 @@ fn main() {
                 done.push('\n');
                 let mut diff: Option<String> = None;
                 if ra.is_ok() != rb.is_ok() || pa || pb {
-                    diff = Some(format!("command outcome differs (semi-naive {:?}, naive {:?})", ra.as_ref().map(|_| ()), rb.as_ref().map(|_| ())));
+                    diff = Some(format!("command outcome differs ({side_a} {:?}, {side_b} {:?})", ra.as_ref().map(|_| ()), rb.as_ref().map(|_| ())));
                 }
                 if diff.is_none() && !st.starts_with("(let $m") && k >= 1 {
                     for pr in probes {
@@ -249,7 +264,7 @@ fn main() {
                         let (ca, _) = step(&mut a, &format!("(check {pr})"));
                         let (cb, _) = step(&mut b, &format!("(check {pr})"));
                         if ca.is_ok() != cb.is_ok() {
-                            diff = Some(format!("(check {pr}) {} under semi-naive but {} under naive evaluation", if ca.is_ok() { "holds" } else { "fails" }, if cb.is_ok() { "holds" } else { "fails" }));
+                            diff = Some(format!("(check {pr}) {} with {side_a} but {} with {side_b}", if ca.is_ok() { "holds" } else { "fails" }, if cb.is_ok() { "holds" } else { "fails" }));
                             break;
                         }
                     }
@@ -259,12 +274,12 @@ fn main() {
                         let fmt = |r: Result<Vec<egglog::CommandOutput>, String>| r.map(|o| o.iter().map(|x| x.to_string()).collect::<String>()).unwrap_or_else(|e| e);
                         let (sa, sb) = (fmt(sa), fmt(sb));
                         if sa != sb {
-                            diff = Some(format!("table sizes differ: semi-naive {sa:?} naive {sb:?}"));
+                            diff = Some(format!("table sizes differ: {side_a} {sa:?} {side_b} {sb:?}"));
                         }
                     }
                 }
                 if let Some(dm) = diff {
-                    viols.push(Viol { what: format!("nested containers, after `{st}`: {dm}"), key: "C03-semi-vs-naive".into(), program: format!("{setup}{done}"), at: k });
+                    viols.push(Viol { what: format!("nested containers, after `{st}`: {dm}"), key: if threads_mode { "C06-threads-differ".into() } else { "C03-semi-vs-naive".into() }, program: format!("{setup}{done}"), at: k });
                     break 'steps;
                 }
             }
@@ -562,6 +577,21 @@ fn main() {
             // predicates keep running).
             if matches!(c, Cmd::Run(_)) && any_delete && !rule_free {
                 model_ok = false;
+            }
+            // ---- known answers attached to the program by the generator (C05 batch mode: the fold
+            //      of every value written to one key within one iteration) ----
+            for (at, fact) in &p.expect {
+                if *at == k && ok {
+                    let (rc, pc) = step(&mut eg, &format!("(check {fact})"));
+                    if rc.is_err() || pc {
+                        viols.push(Viol {
+                            what: format!("after command {k} `{}`: (check {fact}) fails, but {fact} is the merge of all values written to that key within this iteration", ctext.replace('\n', " ")),
+                            key: "C05-batch-fold".into(),
+                            program: text.clone(),
+                            at: k,
+                        });
+                    }
+                }
             }
             let d = match dump(&eg, p) {
                 Ok(d) => d,
